@@ -1,5 +1,5 @@
 """C07 - @serial scenarios run in isolation from every other scenario."""
-from checks import common, sched, builder_defaults, sched_worlds
+from checks import common, sched, builder_defaults, sched_worlds, c16
 
 
 def body(chk):
@@ -7,6 +7,8 @@ def body(chk):
     sched.get_obligations(chk, 'C07')
     sched.insert_scenarios_obligations(chk, 'C07')
     sched_worlds.run(chk, 'C07')
+    # the classifier's input: scenarios expanded from an outline carry the outline's and their Examples block's tags
+    c16.obligations(chk, 'C07')
 
 
 if __name__ == '__main__':
